@@ -13,6 +13,28 @@ use std::collections::{BTreeMap, HashSet};
 use std::sync::Mutex;
 use trippy_core::MultipathStrategy;
 
+/// The trace identifiers the command line gives to `n` sibling tracers of a process whose id
+/// (mod 65535) is `pid`: asked of the real `start_tracers` through the `vtui cli-ids` helper, which
+/// the dispatcher builds next to this binary.
+fn cli_identifiers(pid: u16, n: usize) -> Result<Vec<u16>, String> {
+    let exe = std::env::current_exe().expect("MACHINERY: current_exe");
+    let vtui = exe.parent().expect("MACHINERY: exe dir").join("vtui");
+    let out = std::process::Command::new(&vtui)
+        .args(["cli-ids", &pid.to_string(), &n.to_string()])
+        .output()
+        .unwrap_or_else(|e| panic!("MACHINERY: cannot run {}: {e}", vtui.display()));
+    let text = String::from_utf8_lossy(&out.stdout).to_string();
+    for line in text.lines() {
+        if let Some(rest) = line.strip_prefix("CLI-IDS ") {
+            return Ok(rest.split_whitespace().map(|x| x.parse().expect("MACHINERY: cli-ids output")).collect());
+        }
+        if line.starts_with("CLI-IDS-ERROR") || line.starts_with("CLI-IDS-PANIC") {
+            return Err(line.to_string());
+        }
+    }
+    panic!("MACHINERY: vtui cli-ids printed nothing usable (status {:?}): {text} {}", out.status, String::from_utf8_lossy(&out.stderr));
+}
+
 fn junk_menu(t: &Task, sibling_delta: u16) -> Vec<JunkKind> {
     if t.topo == "far-target-late" {
         // slots 201..253 keep the Awaited probes of the long first round; after the wrap-around
@@ -118,6 +140,38 @@ pub fn run(args: &Args) -> i32 {
     let tier = args.tier;
     let mut rep = Report::new("C03", tier, "model_checking");
     let bound = if tier == Tier::Thorough { 3 } else { 2 };
+    // identifiers the CLI assigns: asked of the real start_tracers for process ids (mod 65535)
+    // {0,1,2,0x1234,65533,65534} with three targets; they must be pairwise distinct, and every
+    // ordered pair of neighbours becomes an (own, sibling) pair of the tasks below
+    let mut cli_findings: BTreeMap<String, Finding> = BTreeMap::new();
+    let mut cli_pairs: Vec<(u16, u16)> = vec![];
+    let mut cli_assignments = vec![];
+    for pid in [0u16, 1, 2, 0x1234, 65533, 65534] {
+        match cli_identifiers(pid, 3) {
+            Ok(ids) => {
+                cli_assignments.push(json!({"pid": pid, "identifiers": ids}));
+                for i in 0..ids.len() {
+                    for j in 0..ids.len() {
+                        if i != j && ids[i] == ids[j] {
+                            let key = "cli-assigns-one-identifier-to-two-tracers".to_string();
+                            cli_findings.entry(key.clone()).or_insert_with(|| Finding { key, detail: format!("process id {pid} (mod 65535), 3 targets: identifiers {ids:?}"), replay: json!({"check":"C03","part":"cli-ids","pid":pid,"targets":3}), weight: (0, 0), count: 1 });
+                        }
+                    }
+                }
+                for w in ids.windows(2) {
+                    cli_pairs.push((w[0], w[1]));
+                    cli_pairs.push((w[1], w[0]));
+                }
+            }
+            Err(e) => {
+                let key = format!("cli-identifier-assignment-fails:{}", e.split(" at ").next().unwrap_or(&e).replace(char::is_numeric, "#"));
+                cli_findings.entry(key.clone()).or_insert_with(|| Finding { key, detail: format!("process id {pid} (mod 65535), 3 targets: {e}"), replay: json!({"check":"C03","part":"cli-ids","pid":pid,"targets":3}), weight: (0, 0), count: 1 });
+            }
+        }
+    }
+    cli_pairs.sort_unstable();
+    cli_pairs.dedup();
+    cli_pairs.retain(|(a, b)| a != b);
     // (task, own trace id, sibling delta)
     let mut tasks: Vec<(Task, u16)> = vec![];
     for cell in drive::base_cells() {
@@ -125,7 +179,9 @@ pub fn run(args: &Args) -> i32 {
             // identifiers the CLI assigns: pid+i for pid in {0,1,2,65533,65534}, i in {0,1};
             // (own id, sibling id) pairs in both directions
             let pairs: Vec<(u16, u16)> = if cell.proto == Proto::Icmp {
-                vec![(1, 0), (0, 1), (2, 1), (3, 2), (65534, 65533), (65533, 65534), (0x1234, 0x1235)]
+                let mut v = vec![(1, 0), (0, 1), (2, 1), (3, 2), (65534, 65533), (65533, 65534), (0x1234, 0x1235)];
+                v.extend(cli_pairs.iter().copied().filter(|p| !v.contains(p)).collect::<Vec<_>>());
+                v
             } else {
                 vec![(0x1234, 0x1235)]
             };
@@ -297,8 +353,10 @@ pub fn run(args: &Args) -> i32 {
             }
         }
     });
-    let a = agg.into_inner().unwrap();
+    let mut a = agg.into_inner().unwrap();
+    a.findings.extend(cli_findings);
     rep.merge_findings(a.findings);
+    rep.observe("identifiers_assigned_by_the_command_line", json!(cli_assignments));
     rep.set("states", json!(a.stats.states));
     rep.set("transitions", json!(a.stats.transitions));
     rep.set("traces_validated_against_impl", json!(a.stats.executions + a.junk_runs));
@@ -311,7 +369,7 @@ pub fn run(args: &Args) -> i32 {
     rep.set("horizon_hits", json!(a.stats.horizon_hits));
     rep.set("determinism_replays", json!(a.replays));
     rep.observe("junk_deliveries_by_kind", json!(a.by_kind));
-    rep.set("rule", json!(format!("14 base cells x topologies {{L2,L3,silent-mid}} (+ every privileged cell with a pinned destination port or both ports pinned, incl. a foreign response differing in the second pinned port only) x CLI-assigned identifier pairs (pid+i for pid in {{0,1,2,65533,65534}}), 3 rounds: all executions with <= {bound} deviations where a deviation is a delay, a loss or the injection of one junk datagram (duplicate of a delivered response; late response to a previous-round probe; sibling tracer's Time Exceeded / Echo Reply; other target; other fixed port; never-sent sequences: next unissued, round_start-1, +300, +511, +512; + per cell a path with transient socket failures offered at every send/bind/connect, where the junk names the sequence of the Failed / Skipped slot); plus 254-probe rounds across sequence wrap-around with <= 1 deviation. Oracle: re-run with every junk datagram replaced by an ICMP Echo Request (discarded at the lowest level) - published rounds, timestamps and final snapshot must be identical. distinct_nontrivial = executions containing >= 1 junk delivery (each compared with its inert twin)")));
+    rep.set("rule", json!(format!("14 base cells x topologies {{L2,L3,silent-mid}} (+ every privileged cell with a pinned destination port or both ports pinned, incl. a foreign response differing in the second pinned port only) x CLI-assigned identifier pairs (asked of the real start_tracers for process ids {{0,1,2,0x1234,65533,65534}} x 3 targets - they must be pairwise distinct -, + the fixed pairs (1,0),(0,1),(2,1),(3,2),(65534,65533),(65533,65534)), 3 rounds: all executions with <= {bound} deviations where a deviation is a delay, a loss or the injection of one junk datagram (duplicate of a delivered response; late response to a previous-round probe; sibling tracer's Time Exceeded / Echo Reply; other target; other fixed port; never-sent sequences: next unissued, round_start-1, +300, +511, +512; + per cell a path with transient socket failures offered at every send/bind/connect, where the junk names the sequence of the Failed / Skipped slot); plus 254-probe rounds across sequence wrap-around with <= 1 deviation. Oracle: re-run with every junk datagram replaced by an ICMP Echo Request (discarded at the lowest level) - published rounds, timestamps and final snapshot must be identical. distinct_nontrivial = executions containing >= 1 junk delivery (each compared with its inert twin)")));
     for s in a.samples {
         rep.sample(s);
     }
